@@ -457,6 +457,8 @@ def finish(ctx, level="model_checking", rule="", assumptions=None, checker_cmd="
     if new_viol:
         rdir = os.path.join(OUTDIR, "replays", ctx.prop)
         os.makedirs(rdir, exist_ok=True)
+        for old in glob.glob(os.path.join(rdir, "%s_%d_*.json" % (ctx.tier, ctx.seed))):
+            os.remove(old)          # replay files of an earlier run with the same tier and seed
         for i, (o, exp, note) in enumerate(new_viol[:20]):
             path = os.path.join(rdir, "%s_%d_%d.json" % (ctx.tier, ctx.seed, i))
             with open(path, "w") as f:
